@@ -151,6 +151,8 @@ func runConfig(rep *core.Report, pr *rules.Property, repo string, cfg core.Confi
 		fmt.Println("absorbed helpers:", strings.Join(hs, " "))
 	}
 	env := &rules.Env{P: p, R: rep, Tier: tier, Only: only, Primary: cfg.Name == "linux/amd64"}
+	defer rules.Round7(env, pr.ID)
+	defer rules.Round8(env, pr.ID)
 	defer rules.Round6(env, pr.ID)
 	defer rules.Round5(env, pr.ID)
 	defer rules.Round4(env, pr.ID)
